@@ -13,6 +13,7 @@
    frames (Frame = i32).  [sp_hist ops] is the host's timeline: the values of frame 0, 1, 2, ...
    No bound on max_frames_behind / catchup_speed is needed for any of the statements. *)
 From GGRS Require Import Queue QueueProofs Sync P2P Session SessionProofs SessionSparse SessionProgress SessionSparse2 SessionTimeline SessionTimelineSparse SessionLockstep.
+From GGRS Require SessionSystem.
 From GGRS Require Import Base Consts Spectator SpectatorProofs.
 Open Scope Z_scope.
 
@@ -187,3 +188,46 @@ Example C06_host_demo :
       [SLocal 0 1; SAdvance; SLocal 0 1; SAdvance; SRemote 1 0 7; SRemote 1 1 7; SLocal 0 2; SAdvance] = Ok (p, outs) /\
     map (fun fs => (fst fs, map pi_val (snd fs))) (all_spec_sends outs) = [(0, [1; 7]); (1, [1; 7])].
 Proof. eexists. eexists. split; vm_compute; reflexivity. Qed.
+
+(* HOST AND SPECTATOR TOGETHER (coq/SessionSystem.v).  A host (rollback mode, either saving mode) runs ANY operation
+   sequence of C01's space with at least one spectator attached; a spectator runs ANY sequence of arriving frames and
+   advance_frame calls (any pauses, any catch-up settings).  The one assumption is the link contract
+   [spectator_got_prefix]: the frames that reached the spectator are, in order, the first so-many frames the host
+   handed to its spectator endpoints (each frame once, in order, unaltered - what the endpoint delivers: props/C05.v,
+   C14.v).  Then the spectator never panics, it never advances beyond what the host broadcast, and the k-th frame it
+   is asked to advance carries, for every player, exactly the input the host holds for frame k - which, for every
+   frame the host has confirmed and simulated, is the input the host's own game last simulated frame k with:
+   no gap, no repeat, no reordering, no predicted value. *)
+Theorem C06_spectator_replays_host :
+  forall (predict : Z -> Z), (forall x, predict (predict x) = predict x) -> predict 0 = 0 ->
+  forall (sparse : bool) (ops : list sop) (n w d : Z) (kinds : list pkind) (eps : list (list Z)) (nspec : nat)
+         (p : p2p) (outs : list (pout * apires)) (mfb cs : Z) (opsS : list sp_hop),
+  1 <= w -> 0 <= d -> w + d + 3 <= INPUT_QUEUE_LENGTH -> 0 < n -> Z.of_nat (length kinds) = n -> players_only kinds -> (0 < nspec)%nat ->
+  srun_in predict (session_start n w sparse d kinds eps nspec) ops = Ok (p, outs) ->
+  sp_wf n opsS -> sp_hlen (sp_hist opsS) < 2 ^ 31 ->
+  SessionSystem.spectator_got_prefix outs opsS ->
+  exists t g gs, sp_hrun (sp_start n mfb cs) opsS = Ok t /\
+    exec_outs w (game0 w) outs = Some g /\ QSg sparse w d p gs /\
+    let del := sp_delivered (sp_t_calls t) in
+    (Z.of_nat (length del) <= ps_next_spec p) /\
+    forall k, (k < length del)%nat ->
+      map fst (nth k del []) = map (fun gh : ghost => hval (fst gh) (Z.of_nat k)) gs /\
+      (Z.of_nat k <= s_last_confirmed (ps_sync p) -> Z.of_nat k < s_current (ps_sync p) ->
+       forall h hist low, nth_error gs h = Some (hist, low) ->
+         nth h (map fst (nth k del [])) 0 = gvalL (g_hist g) (Z.of_nat k) h).
+Proof. exact SessionSystem.spectator_replays_host. Qed.
+
+(* non-vacuity: the host run of C06_host_demo broadcasts frames 0 and 1 as [1; 7]; a spectator that has received the
+   first of them and called advance_frame twice satisfies the link contract and was handed [1; 7] once *)
+Definition c06_sys_spec : list sp_hop :=
+  [sp_HSync; sp_HFrame [(1, [sp_mkcs false 0; sp_mkcs false 0]); (7, [sp_mkcs false 0; sp_mkcs false 0])]; sp_HAdvance; sp_HAdvance].
+Example C06_system_demo :
+  exists p outs, srun_in (fun x => x) (session_start 2 2 false 0 [KLocal; KRemote 0] [[1]] 1)
+      [SLocal 0 1; SAdvance; SLocal 0 1; SAdvance; SRemote 1 0 7; SRemote 1 1 7; SLocal 0 2; SAdvance] = Ok (p, outs) /\
+    sp_wf 2 c06_sys_spec /\ SessionSystem.spectator_got_prefix outs c06_sys_spec /\
+    map (fun o => match o with sp_Delivered l => map (map fst) l | sp_Failed _ => [] end)
+        (sp_outcomes (sp_hrun (sp_start 2 10 3) c06_sys_spec)) = [ [[1; 7]]; [] ].
+Proof.
+  eexists. eexists. split; [vm_compute; reflexivity|]. split; [|split; vm_compute; reflexivity].
+  repeat constructor.
+Qed.
